@@ -3,7 +3,8 @@
 //   R:<i>:<t>   conflict of pool tx i paying S-1 / S / S+inc-1 / S+inc / S+inc+1 (S = modified fees of i and its descendants),
 //   RB          the same with a replacement three times as large (pays Rules 3/4 but need not improve the diagram),
 //   RS          conflict that also spends an output of what it evicts,   SB  TRUC sibling eviction at the thresholds,
-//   PR          1-parent-1-child package RBF at the thresholds,  P  prioritisation (so modified != base fees),  C  descendants.
+//   PR          1-parent-1-child package RBF at the thresholds (S+inc-1 / S+inc / S+inc+1 on MODIFIED fees, also against a
+//               parent+child pair (PK) that was prioritised upward earlier in the history),  P  prioritisation (so modified != base fees),  C  descendants.
 // Oracle (one-directional, the property is "only if"): whenever a submission that conflicts with pool txs (or evicts a
 // TRUC sibling) is accepted,
 //   Rule 3/4: sum of modified fees of the new txs >= modified fees of everything evicted + ceil(100 * vsize(new) / 1000);
@@ -139,12 +140,16 @@ int main(int argc, char** argv)
         o.max_size_bytes = 40000;
         o.cluster_size_vbytes = 1000;
         o.cluster_count = 4;
-        o.classes = {"N", "N3", "C", "P", "R", "RB", "RS", "SB", "PR"};
+        // PK seeds the pool with a parent+child pair in one step, so that "pair | prioritise +1000 | package RBF at the
+        // Rule-4 bound" fits in depth 3: only against a conflict at least as large as the package can a package RBF
+        // inside the window [evicted modified fees, + incremental fee) also improve the diagram
+        o.classes = {"N", "N3", "PK", "C", "P", "R", "RB", "RS", "SB", "PR"};
+        o.pk_parent = "l"; o.pk_child = "k";
         o.guarded = true;
         o.fees = "mh"; o.fees3 = "h";
         o.child_fees = "h";
         o.thr = "acd";
-        o.thr_rb = "cd"; o.thr_sb = "cd"; o.thr_pr = "ch";
+        o.thr_rb = "cd"; o.thr_sb = "cd"; o.thr_pr = "cdeh";
         o.max_idx = 2;
         o.prio_minus = false; o.prio_next = false;
         o.n_only_when_empty = true; o.child_outs = 1;
